@@ -46,6 +46,8 @@ var c12Kinds = []string{
 	"uacc:unknown-version", "uacc:pending-garbage-sig", "urej:unknown-version", "uacc:unknown-channel", "urej:pending", "uacc:pending-twice",
 	// virtual channel funding / settlement proposals
 	"vfund:ok-shape", "vfund:state-3parts", "vfund:indexmap-short", "vfund:indexmap-entry", "vfund:sigs-nil", "vfund:not-virtual", "vfund:state-other-id", "vfund:unknown-channel", "vfund:assets-mismatch", "vfund:twice",
+	// a funding proposal that satisfies every check of the hub (each party debited by its own share) and never gets its match
+	"vfund:valid-unmatched",
 	"vfund:locked-drop-all", "vfund:locked-drop-first", "vfund:locked-swap", "vfund:locked-dup",
 	// the embedded state has fewer balance columns than the channel has participants, one signature per participant
 	"vfund:state-1part", "vsettle:state-1part",
@@ -597,7 +599,9 @@ func (a *c12adv) build(kind string, r *kernel.Rand, from map[wallet.BackendID]wi
 	vParams := func(parts int) *channel.Params {
 		accs := gen.Pool(6)
 		ps := []*gen.Acc{accs[0], accs[2], accs[4]}[:parts]
-		return gen.Params(ps, 10, gen.AppNone, 900+r.Uint64()%50, false, true)
+		// (any non-zero challenge duration is legal, also one of decades)
+		cd := []uint64{10, 10, 10, 1, 3600, 1 << 30, 1 << 62}[r.Intn(7)]
+		return gen.Params(ps, cd, gen.AppNone, 900+r.Uint64()%50, false, true)
 	}
 	vState := func(p *channel.Params, parts int) *channel.State {
 		return &channel.State{ID: p.ID(), Version: 0, App: channel.NoApp(), Data: channel.NoData(), Allocation: *alloc1(parts, nA)}
@@ -776,7 +780,7 @@ func (a *c12adv) build(kind string, r *kernel.Rand, from map[wallet.BackendID]wi
 	case "urej:pending":
 		return &client.ChannelUpdateRejMsg{ChannelID: hch.ID(), Version: cur.Version + 1, Reason: "no"}
 	// ---- virtual channel funding ---------------------------------------------------------
-	case "vfund:ok-shape", "vfund:state-3parts", "vfund:indexmap-short", "vfund:indexmap-entry", "vfund:sigs-nil", "vfund:not-virtual", "vfund:state-other-id", "vfund:unknown-channel", "vfund:assets-mismatch", "vfund:twice",
+	case "vfund:ok-shape", "vfund:valid-unmatched", "vfund:state-3parts", "vfund:indexmap-short", "vfund:indexmap-entry", "vfund:sigs-nil", "vfund:not-virtual", "vfund:state-other-id", "vfund:unknown-channel", "vfund:assets-mismatch", "vfund:twice",
 		"vfund:locked-drop-all", "vfund:locked-drop-first", "vfund:locked-swap", "vfund:locked-dup", "vfund:state-1part":
 		parts := 2
 		if kind == "vfund:state-3parts" {
@@ -803,11 +807,29 @@ func (a *c12adv) build(kind string, r *kernel.Rand, from map[wallet.BackendID]wi
 		}
 		st := next()
 		tot := gen.Totals(&vs.Allocation)
-		for i := range tot {
-			if st.Balances[i][0].Cmp(tot[i]) >= 0 {
-				st.Balances[i][0].Sub(st.Balances[i][0], tot[i])
-			} else {
-				tot[i] = new(big.Int)
+		if kind == "vfund:valid-unmatched" {
+			// every participant of the virtual channel is debited by its own share
+			ok := true
+			for i := range vs.Balances {
+				for j, b := range vs.Balances[i] {
+					ok = ok && st.Balances[i][imap[j]].Cmp(b) >= 0
+				}
+			}
+			if !ok {
+				return nil
+			}
+			for i := range vs.Balances {
+				for j, b := range vs.Balances[i] {
+					st.Balances[i][imap[j]].Sub(st.Balances[i][imap[j]], b)
+				}
+			}
+		} else {
+			for i := range tot {
+				if st.Balances[i][0].Cmp(tot[i]) >= 0 {
+					st.Balances[i][0].Sub(st.Balances[i][0], tot[i])
+				} else {
+					tot[i] = new(big.Int)
+				}
 			}
 		}
 		st.Locked = append(st.Locked, channel.SubAlloc{ID: vp.ID(), Bals: tot, IndexMap: imap})
